@@ -83,6 +83,19 @@ prop(
     thorough=dict(checks=4000, shards=16),
 )
 
+prop(
+    "C04",
+    title="Expansion terminates without crashing on every reference graph",
+    technique="property-based testing (rapid) with process isolation: each generated expansion job runs in a worker subprocess under a bounded stack; outcome must be result-or-error, work (hooked step counter) bounded by the reference model's acyclic unfolding size; plus exhaustive enumeration of small reference graphs",
+    rule=GRAPH_RULE + "C04 knobs: cycle bias 25%, ids (absolute, relative file, fragment) on 17% of schemas in 35% of graphs, faults (dangling / ill-typed targets, refused documents) in 40% of graphs, all seven entry points, all combinations of SkipSchemas/ContinueOnError/AbsoluteCircularRef. Non-trivial = the graph is cyclic, carries an id or has a refused document; distinct by hash of the case. Exhaustive part: see coverage.exhaustive_note",
+    exhaustive_note="every digraph on <=2 (quick) / <=3 (thorough) nodes x placement of the $ref under each sub-schema keyword x entry kind of node 0 x same/other document x id variants x the 4 SkipSchemas/ContinueOnError combinations, run through ExpandSpec and the single-element entry point of node 0",
+    design_ref="DESIGN.md §4 C04",
+    level_text="exploration + exhaustive enumeration of a bounded space: termination, absence of panics/stack overflows and a work bound are observed per job in an isolated worker (16 MiB stack), so a runaway recursion is a deterministic, attributable outcome",
+    level_note="the work bound (steps <= 4*U+64, U = model's path-cut unfolding size) is calibrated: observed maximum ratio ~1.6; it detects unbounded or super-unfolding work, not constant-factor slowdowns; wall clock is only a watchdog (20 s, re-run alone with 120 s)",
+    quick=dict(checks=500, shards=8),
+    thorough=dict(checks=4000, shards=16),
+)
+
 
 def manifest():
     allids = []
